@@ -387,6 +387,14 @@ func c01Cases(a *ChildArgs) []c01Case {
 				cs = append(cs, c01Case{ID: fmt.Sprintf("after/%d/%d", pi, ti), Pre: pre, Text: func() string { return text }})
 			}
 		}
+		// ... and statements made of the node kinds the parser draws from its pools (subscripts, slices, tuples, array
+		// constructors), right after a call that released a tree holding such nodes inside each other
+		for pi, pre := range []string{"SELECT a[b[1]:c[2]] FROM t", "SELECT a[(1, 2)[1]:ARRAY[3][1]] FROM t", "SELECT ARRAY[a[1:2], b[3]], (c[1], d[2:3]) FROM t", "SELECT x[y[z[1]]] FROM t; SELECT FROM"} {
+			for ti, text := range []string{"SELECT m[1][2] FROM t", "SELECT m[1:2][3], (a, b) FROM t", "SELECT ARRAY[ARRAY[1, 2], ARRAY[3]] FROM t", "SELECT (a, (b, c)) IN ((1, (2, 3))) FROM t", "SELECT a[1][2][3][4] FROM t WHERE b[1:2][1] = ARRAY[1][1]"} {
+				pre, text := pre, text
+				cs = append(cs, c01Case{ID: fmt.Sprintf("afterpool/%d/%d", pi, ti), Pre: pre, Text: func() string { return text }})
+			}
+		}
 		sizes := []int{1, 2, 3, 50, 99, 100, 101, 150, 1000, 4000}
 		if !quick {
 			sizes = append(sizes, 9000, 16000)
